@@ -45,7 +45,7 @@ pub struct Tracer {
 impl Tracer {
     pub fn new(dir: &str, prefix: &str, shard_events: usize) -> Tracer {
         std::fs::create_dir_all(dir).expect("outdir");
-        Tracer { dir: dir.into(), prefix: prefix.into(), shard_events, shard_bytes: 24 << 20, cur: None, cur_events: 0, cur_bytes: 0, shard_no: 0, total: 0, regs: vec![Value::Null; 16] }
+        Tracer { dir: dir.into(), prefix: prefix.into(), shard_events, shard_bytes: 24 << 20, cur: None, cur_events: 0, cur_bytes: 0, shard_no: 0, total: 0, regs: vec![crate::wire::dec_json_from_digits(false, "0", 0); 17] }
     }
     fn roll(&mut self) {
         if let Some(mut f) = self.cur.take() {
@@ -87,6 +87,10 @@ impl Tracer {
             }
         }
         let r = if ev["op"] == "reset" || ev["op"] == "note" {
+            if ev["op"] == "reset" {
+                // like the specification: a reset clears the registers to zero
+                for r in self.regs.iter_mut() { *r = crate::wire::dec_json_from_digits(false, "0", 0); }
+            }
             Value::Null
         } else if ev["op"] == "load" {
             let k = ev["dst"].as_u64().unwrap() as usize;
